@@ -9,6 +9,7 @@ import Falcon.Model.Sampler
 import Falcon.Model.Zp
 import Falcon.Model.RingZ
 import Falcon.Model.KeygenSkel
+import Falcon.Model.SignSkel
 import Falcon.Spec.Codec
 /- dispatch of one line-protocol op to the model -/
 namespace Falcon.Driver
@@ -159,6 +160,19 @@ def execOp (chk : Bool) (tok : List String) : String :=
               | .panic _ => "PANIC"
           | _ => "rejected"
   | ["sk_fields", _, _, _, _] => "skip"
+  | ["sign_check", n, f, g, cf, cg, m, salt, z0, z1, pk] =>
+      let n := parseNat n; let msg := parseHex m
+      match SignSkel.signWith chk n (parseInts f) (parseInts g) (parseInts cf) (parseInts cg) msg (parseHex salt) (parseInts z0) (parseInts z1) with
+      | .panic _ => "PANIC"
+      | .ok (.error why) => why
+      | .ok (.ok sig) =>
+        let v := renderRes (fun o => match o with | none => "Undecodable" | some b => toString b)
+          (Verify.verifyBytes chk n msg sig (parseHex pk))
+        renderHex sig ++ " " ++ v ++ " frac<1e-3"
+  | ["sign", _, _, _, _] => "skip"
+  | ["sign_salt", _, _, _, _] => "skip"
+  | ["sign_fresh", _, _, _, _] => "skip"
+  | ["sign_leaves", _, _, _, _] => "skip"
   | ["keygen", _, _] => "skip"
   | ["sk_roundtrip", _, _] => "skip"
   | ["keygen_digest", _, _] => "skip"
